@@ -12,14 +12,14 @@ ENGINE = "E2 detgrid"
 TECHNIQUE = ("metamorphic + differential: Hypothesis over (plaintext, secret, k, N, segment size) x data sources (Data, FileHandle, "
              "custom IUploadable with generated chunking) on the real Uploader; caps compared across sources and with an independent hashlib reference of the convergent key")
 RULE = ("each case: plaintext of a size around 55/56, segment and k multiples or random (<=6000 bytes quick, <=300 KiB thorough), a convergence secret (random, empty, or None), "
-        "(k,N,segment size); uploaded through 2-3 different sources, one of which returns data in a generated chunking, and once more with exactly one of "
+        "(k,N,segment size); uploaded through 2-3 different sources, one of which returns data in a generated chunking, once more (when N >= 2) while one server fails its writes from a generated call number on, and once more with exactly one of "
         "{secret, k, N, segment size} changed. Oracle: same inputs => byte-identical cap from every source, whose key equals the reference "
-        "SHA256d-tagged convergence hash and whose storage index equals the reference hash of the key; one changed input => different storage index; "
+        "SHA256d-tagged convergence hash and whose storage index equals the reference hash of the key; a degraded upload that still succeeds => the same cap; one changed input => different storage index; "
         "size <= 55 => URI:LIT embedding the bytes with no server message; no secret => two uploads get different keys. "
         "Non-trivial = a chunked source whose chunk boundaries do not coincide with segment boundaries, on a non-literal file; distinct by (k,N,seg,size,secret,chunking).")
 LEVEL_TEXT = "Random search with a metamorphic oracle (source/chunking independence, sensitivity to each parameter) and a differential oracle (independent key derivation)."
-ASSUMPTIONS = ["the reference derivation is the documented netstring-tagged SHA-256d construction (shared with C17)", "honest grid"]
-REQUIRED_CLASSES = ["literal", "size-55", "size-56", "chunked-unaligned", "empty-secret", "no-secret", "changed-secret", "changed-k", "changed-n", "changed-seg"]
+ASSUMPTIONS = ["the reference derivation is the documented netstring-tagged SHA-256d construction (shared with C17)", "honest grid, except that in the server-failure variant one server rejects (or fails to acknowledge) every write from a generated call number on; there the client-side write batch size (a constructor default) is lowered so that small shares are written in several calls"]
+REQUIRED_CLASSES = ["faulty-upload-ok", "literal", "size-55", "size-56", "chunked-unaligned", "empty-secret", "no-secret", "changed-secret", "changed-k", "changed-n", "changed-seg"]
 BUDGET = {"quick": 900, "thorough": 7200}
 SEGS = [16, 17, 64, 100, 128, 1000, 4096, 131072]
 
@@ -52,7 +52,8 @@ def cases(draw, big):
     secret = {"r": pbytes(draw(st.integers(0, 3)), draw(st.sampled_from([1, 16, 32]))).hex(), "empty": "", "none": None}[secret]
     chunks = draw(st.lists(st.integers(1, max(1, min(size, 3 * seg + 5))), min_size=1, max_size=12))
     return {"k": k, "n": n, "seg": seg, "size": size, "fill": draw(st.integers(0, 3)), "secret": secret, "chunks": chunks,
-            "change": draw(st.sampled_from(["secret", "k", "n", "seg"]))}
+            "change": draw(st.sampled_from(["secret", "k", "n", "seg"])),
+            "fault": draw(st.none() | st.fixed_dictionaries({"server": st.integers(0, 9), "from": st.integers(0, 12), "batch": st.sampled_from([1, 64, 500, 4096]), "after": st.booleans()}))}
 
 
 def run_shard(spec, ctx):
@@ -92,15 +93,26 @@ def run_case(case, ctx):
     classes = set()
     desc = "k=%d N=%d segsize=%d size=%d secret=%r chunks=%r" % (k, n, seg, size, case["secret"], case["chunks"])
 
-    def up(params, mk):
+    def up(params, mk, fault=None):
+        from allmydata.immutable.layout import WriteBucketProxy
         g = Grid(ctx.casedir(), n if params is None else params["n"], params or {"k": k, "n": n, "happy": 1, "max_segment_size": seg})
+        saved = WriteBucketProxy.__init__.__defaults__
         try:
+            if fault:
+                # a server that stops accepting writes in mid-upload; the client-side write batch (1 MB by default, so small shares are
+                # written in one piece at close) is made small so that "mid-upload" exists for small files too
+                WriteBucketProxy.__init__.__defaults__ = (fault["batch"],)
+                srv = g.servers[fault["server"] % len(g.servers)]
+                (srv.fail_after if fault["after"] else srv.fail)["write"] = set(range(fault["from"], fault["from"] + 100000))
             r = g.run(g.c0.upload(mk()))
             if r[0] != "ok":
+                if fault:
+                    return None, 0
                 ctx.fail("upload-failed", "%s: upload failed %r" % (desc, r))
                 return None, 0
             return r[1].get_uri(), g.sched.delivered
         finally:
+            WriteBucketProxy.__init__.__defaults__ = saved
             g.stop()
     sources = [("Data", lambda s=secret: Data(data, convergence=s)),
                ("FileHandle", lambda s=secret: FileHandle(io.BytesIO(data), convergence=s)),
@@ -132,6 +144,15 @@ def run_case(case, ctx):
             refkey = refhash.convergence_key(k, n, segeff, data, secret)
             ctx.check(u0.key == refkey, "key-differs-from-reference", "%s: cap key %s, reference convergence hash %s" % (desc, u0.key.hex(), refkey.hex()))
             ctx.check(u0.get_storage_index() == refhash.chk_storage_index(u0.key), "si-differs-from-reference", "%s: storage index is not the tagged hash of the key" % desc)
+            # ---- the same upload while one server fails in mid-transfer: if it still succeeds the cap is the same
+            if case.get("fault") and n >= 2:
+                capf, _ = up(None, lambda: Data(data, convergence=secret), fault=case["fault"])
+                if capf is None:
+                    classes.add("faulty-upload-failed")
+                else:
+                    classes.add("faulty-upload-ok")
+                    ctx.check(capf == caps[0][1], "not-convergent-under-server-failure", "%s: a clean upload gave %s, the same upload with server %d failing its writes from number %d on (write batch %d bytes) gave %s" % (
+                        desc, caps[0][1], case["fault"]["server"] % n, case["fault"]["from"], case["fault"]["batch"], capf), fault_from=case["fault"]["from"])
             # ---- change exactly one input
             ch = case["change"]
             p2 = {"k": k, "n": n, "happy": 1, "max_segment_size": seg}
